@@ -63,3 +63,13 @@ Theorem C07_no_provider_refuses : forall H mac epoch_of routes deser cfg now r p
   exists c, call H mac epoch_of routes deser cfg now r = ([], OError c).
 Proof. exact no_provider_refuses. Qed.
 Print Assumptions C07_no_provider_refuses.
+
+(* the composed model takes the order "typed access hook, then backend method" from the generated call of an operation: that order holds of
+   every one of today's generated Operation::call bodies (translated from ops/generated.rs on every run): deserialize, the typed access hook
+   of the operation, the backend method of the operation (exactly one, and no other), serialize - CompleteMultipartUpload's keep-alive path included *)
+From S3V Require Import model.Router gen.Routes proofs.RouterTables.
+Theorem C07_typed_hook_before_backend_in_every_operation : forall s, In s gen_call_shapes ->
+  let '(sname, nstr, toks) := s in
+  sname = nstr /\ toks_eqb toks [TDeser; TAccess (snake sname); TBackend (snake sname); TSer] = true.
+Proof. exact call_shapes_today. Qed.
+Print Assumptions C07_typed_hook_before_backend_in_every_operation.
